@@ -140,7 +140,14 @@ def _write_string_pool(triangle: Triangle, stream) -> dict[str, int]:
         all_keys |= set(metadata.details.keys()) | set(metadata.loss_details.keys())
     # Explicitly sorting here so the hash of a Bermuda binary file for a fixed set of contents
     # will be invariant.
-    all_sorted_keys = sorted(all_keys)
+    # A key index is written as two little-endian bytes and the reader recognises the end of
+    # a dictionary by peeking at a single byte, so no key may get an index whose low byte is
+    # the DICT_END marker. Those pool slots hold an empty placeholder that is never referenced.
+    all_sorted_keys = []
+    for key in sorted(all_keys):
+        if len(all_sorted_keys) % 256 == DICT_END[0]:
+            all_sorted_keys.append("")
+        all_sorted_keys.append(key)
 
     # Write out the length of the string pool
     stream.write(struct.pack("<h", len(all_sorted_keys)))
@@ -149,7 +156,8 @@ def _write_string_pool(triangle: Triangle, stream) -> dict[str, int]:
     pool_lookup = dict()
     for ndx, key in enumerate(all_sorted_keys):
         _write_string(key, stream)
-        pool_lookup[key] = ndx
+        if ndx % 256 != DICT_END[0]:
+            pool_lookup[key] = ndx
 
     return pool_lookup
 
